@@ -48,7 +48,10 @@ pub const INFO: Info = Info {
            24-44 ppm outside, neighbours one neutron/z (z 1-2) above/below reporters at 0.25-4x the intensity, peaks in \
            the 1.2 Th right above the heaviest channel, fragment isotope clusters (z 1-3) above the region; no peak \
            within 17-23 ppm of a channel (spec exact); quant/raw level (2,2) mostly, (3,3), mismatches; deisotope on 5/6; \
-           max_peaks >= number of peaks, except a 10% small-max_peaks stream (spec na). tmtpool (quantify inside explicit rayon pools, mostly [1,2,3,4,16]): lists of 2-300 spectra (quick: 60 lists \
+           max_peaks >= number of peaks, except a 10% small-max_peaks stream (spec na); wherever the deisotoper does not \
+           run (raw level 3, or deisotoping off) 3/4 of the raw m/z arrays are NOT ascending: descending, two ascending \
+           segments concatenated, random permutation, duplicated m/z permuted (also directed: every plex x 4 orders x \
+           {MS3 quant, MS2 quant without deisotoping}; same in tmtrun for MS3 spectra and MS2 spectra without deisotoping). tmtpool (quantify inside explicit rayon pools, mostly [1,2,3,4,16]): lists of 2-300 spectra (quick: 60 lists \
            incl. 2 x 300, 128, 64 ...) of five shapes — full-reporter spectra then spectra with all channels empty, the \
            reverse, alternating full / partial / empty, blocks full-partial-empty, random kinds — at the quant level, \
            half of the lists interleaved with (full) other-level spectra; every spectrum has its own intensities so a \
@@ -988,6 +991,44 @@ fn finish_raw(mut peaks: Vec<(f32, f32)>, labels: &[f32]) -> Vec<(f32, f32)> {
     peaks
 }
 
+/// raw m/z arrays that are NOT ascending (the processor must sort; `find_reporter_ions` binary-searches):
+/// 0 = ascending (as is), 1 = descending, 2 = two ascending segments concatenated (upper segment first),
+/// 3 = random permutation, 4 = duplicates of some peaks (same m/z, other intensity) then shuffled
+fn disorder(rng: &mut Rng, kind: usize, mut peaks: Vec<(f32, f32)>) -> Vec<(f32, f32)> {
+    match kind {
+        1 => peaks.reverse(),
+        2 => {
+            if peaks.len() >= 2 {
+                let k = 1 + rng.below(peaks.len() - 1);
+                peaks.rotate_left(k);
+            }
+        }
+        3 => rng.shuffle(&mut peaks),
+        4 => {
+            let n = peaks.len();
+            for _ in 0..(1 + n / 4) {
+                if n > 0 {
+                    let (m, i) = peaks[rng.below(n)];
+                    peaks.push((m, i * *rng.pick(&[0.5f32, 1.0, 2.0])));
+                }
+            }
+            rng.shuffle(&mut peaks);
+        }
+        _ => {}
+    }
+    peaks
+}
+
+fn disorder_tag(kind: usize) -> &'static str {
+    match kind {
+        1 => "raw-mz:descending",
+        2 => "raw-mz:two-segments",
+        3 => "raw-mz:permuted",
+        4 => "raw-mz:duplicates-permuted",
+        _ => "raw-mz:ascending",
+    }
+}
+
 /// intensities of the reporter peaks by channel index
 fn pattern_intensity(pattern: usize, i: usize, n: usize, rng: &mut Rng) -> f32 {
     match pattern {
@@ -1113,6 +1154,24 @@ fn gen_proc(rng: &mut Rng, quick: bool, emit: &mut dyn FnMut(Case)) {
             }
         }
     }
+    // ---- directed: MS3-level quantification of an MS3 spectrum (no deisotoping there) and MS2-level quantification
+    //      with deisotoping off, one peak per channel, raw m/z array in each of the non-ascending orders
+    for plex in [Plex::T6, Plex::T10, Plex::T11, Plex::T16, Plex::T18] {
+        let labels = builtin(&plex);
+        for dis in 1..=4usize {
+            for (level, deiso) in [(3usize, true), (2, false)] {
+                let n = labels.len();
+                let base: Vec<(f32, f32)> = finish_raw(
+                    labels.iter().enumerate().map(|(i, &l)| (l, pattern_intensity(1, i, n, rng))).chain([(300.25f32, 50.0f32), (90.5, 7.0)]).collect(),
+                    &labels,
+                );
+                let peaks = disorder(rng, dis, base);
+                emit(Case::new(proc_request(&plex, level, level, deiso, 150, Some(2), &peaks))
+                    .tag("proc:directed-unsorted-raw")
+                    .tag(disorder_tag(dis)));
+            }
+        }
+    }
     // ---- random
     let n_cases = if quick { 700 } else { 25000 };
     for _ in 0..n_cases {
@@ -1131,15 +1190,19 @@ fn gen_proc(rng: &mut Rng, quick: bool, emit: &mut dyn FnMut(Case)) {
         let labels = builtin(&plex);
         let pattern = rng.below(4);
         let peaks = rand_raw_peaks(rng, &labels, user, pattern, &all18);
-        let np = peaks.len();
         let (level, raw_level) = match rng.below(16) {
             0 => (3, 2),
             1 => (2, 3),
             2 => (1, 2),
-            3 | 4 => (3, 3),
+            3..=6 => (3, 3),
             _ => (2, 2),
         };
         let deiso = rng.chance(5, 6);
+        // the deisotoper (MS2, deisotoping on) presupposes ascending m/z; everywhere else the order of the raw
+        // array must not matter
+        let dis = if raw_level == 2 && deiso { 0 } else if rng.chance(3, 4) { 1 + rng.below(4) } else { 0 };
+        let peaks = disorder(rng, dis, peaks);
+        let np = peaks.len();
         let charge = match rng.below(5) {
             0 => None,
             z => Some(z as u8),
@@ -1159,6 +1222,7 @@ fn gen_proc(rng: &mut Rng, quick: bool, emit: &mut dyn FnMut(Case)) {
             .tag_if(small, "proc:small-max-peaks")
             .tag_if(level != raw_level, "proc:level-mismatch")
             .tag_if(level == 3 && raw_level == 3, "proc:ms3")
+            .tag(disorder_tag(dis))
             .nontrivial(level == 2 && raw_level == 2 && deiso && !small && in_windows >= 2 && in_windows < np));
     }
 }
@@ -1244,6 +1308,34 @@ fn gen_run(rng: &mut Rng, quick: bool, emit: &mut dyn FnMut(Case)) {
             emit(Case::new(run_request(&Plex::T16, 3, false, true, 150, batch, &[f0.clone(), f1.clone()])).tag("run:directed-two-files"));
         }
     }
+    // ---- directed: raw m/z arrays that are not ascending, through the real runner: an MS2 and four MS3 scans (one per
+    //      disorder kind: descending, two segments, permuted, duplicates) for every built-in plex, quantified at MS3
+    //      with deisotoping on (MS3 spectra are never deisotoped) and at MS2 with deisotoping off
+    for plex in [Plex::T6, Plex::T10, Plex::T11, Plex::T16, Plex::T18] {
+        let labels = builtin(&plex);
+        let n = labels.len();
+        let base = |rng: &mut Rng, pattern: usize| -> Vec<(f32, f32)> {
+            finish_raw(
+                labels.iter().enumerate().map(|(i, &l)| (l, pattern_intensity(pattern, i, n, rng))).chain([(300.25f32, 50.0f32), (90.5, 7.0), (755.5, 9.0)]).collect(),
+                &labels,
+            )
+        };
+        for (level, deiso) in [(3usize, true), (2, false)] {
+            let mut specs = Vec::new();
+            for dis in 1..=4usize {
+                let b = base(rng, dis % 3);
+                specs.push(RSpec {
+                    level: level as u8,
+                    id: format!("scan={}", 10 + dis),
+                    inj: dis as f32 + 0.5,
+                    precs: vec![RPrec { mz: 600.5, charge: Some(2), sref: Some(format!("scan={}", dis)) }],
+                    peaks: disorder(rng, dis, b),
+                    noise: vec![],
+                });
+            }
+            emit(Case::new(run_request(&plex, level, false, deiso, 150, 1, &[specs])).tag("run:directed-unsorted-raw").tag("run:unsorted-raw-mz"));
+        }
+    }
     // ---- random
     let n_cases = if quick { 220 } else { 4000 };
     for _ in 0..n_cases {
@@ -1273,6 +1365,7 @@ fn gen_run(rng: &mut Rng, quick: bool, emit: &mut dyn FnMut(Case)) {
         let mut files: Vec<Vec<RSpec>> = Vec::new();
         let mut max_n = 0usize;
         let (mut has_noise, mut shared_ref, mut missing_ref, mut no_ref, mut at_level) = (false, false, false, false, 0usize);
+        let unsorted = std::cell::Cell::new(false);
         for _ in 0..nfiles {
             let mut specs: Vec<RSpec> = Vec::new();
             let mut scan = 1usize;
@@ -1290,6 +1383,11 @@ fn gen_run(rng: &mut Rng, quick: bool, emit: &mut dyn FnMut(Case)) {
                 let mk = |rng: &mut Rng, level: u8, id: String, precs: Vec<RPrec>| {
                     let pattern = rng.below(4);
                     let peaks = rand_raw_peaks(rng, &labels, user, pattern, &all18);
+                    let dis = if level == 2 && deiso { 0 } else if rng.chance(2, 3) { 1 + rng.below(4) } else { 0 };
+                    if dis != 0 {
+                        unsorted.set(true);
+                    }
+                    let peaks = disorder(rng, dis, peaks);
                     let noise = if rng.chance(1, 2) { rand_noise(rng, peaks.len()) } else { vec![] };
                     RSpec { level, id, inj: rand_inj(rng), precs, peaks, noise }
                 };
@@ -1364,6 +1462,7 @@ fn gen_run(rng: &mut Rng, quick: bool, emit: &mut dyn FnMut(Case)) {
             .tag_if(no_ref, "run:ms3-without-reference")
             .tag_if(nfiles > 1, "run:two-files")
             .tag_if(small, "run:small-max-peaks")
+            .tag_if(unsorted.get(), "run:unsorted-raw-mz")
             .nontrivial(at_level >= 1 && !small));
     }
 }
